@@ -54,6 +54,10 @@ def impl_eval(line: str) -> str:
                 return {v: k for k, v in FREQ.items()}.get(f, "no-class")
             if ws[0] == "uniso":
                 return show_period(ir.Period.from_iso_string(raw, frequency=FREQ[ws[1]]))
+            if ws[0] == "pfs":
+                strs = raw.split(",") if raw != "" else []
+                r = D.periods_from_sdmx_strings(strs, frequency=None if ws[1] == "-" else FREQ[ws[1]])
+                return "[" + ",".join(show_period(q) for q in r) + "]"
             return "bad-op"
         ws = line.split()
         op = ws[0]
@@ -100,6 +104,50 @@ def periods(ctx: Ctx, thin_days=1):
     ords = list(day_ordinals(ctx))
     out += [("D", n) for n in ords[::thin_days]]
     out += [("I", n) for n in (-1000001, -12, -1, 0, 1, 5, 9, 10, 99, 100, 2020, 123456789)]
+    return out
+
+
+def own_sdmx(f, s) -> str:
+    """the SDMX string of period (f, s), formatted here (not by irispie)"""
+    if f == "I":
+        return f"({s})"
+    if f == "D":
+        return dt.date.fromordinal(s).isoformat()
+    y, seg = s // FVAL[f], s % FVAL[f] + 1
+    return {"Y": f"{y:04d}", "H": f"{y:04d}-H{seg}", "Q": f"{y:04d}-Q{seg}", "M": f"{y:04d}-{seg:02d}"}[f]
+
+
+SEQ_BASE = {"Y": 2020, "H": 4040, "Q": 8080, "M": 24240, "D": 737425, "I": 0}
+
+
+def gen_sequences(ctx: Ctx, rng):
+    """lists of (f, serial) of one frequency in every arrangement the sequence forms must not care about: consecutive runs,
+    gaps, repetitions, descending and shuffled orders, irregular interiors between end points that are len-1 apart"""
+    out = []
+    for _ in range(ctx.n(700, 12000)):
+        f = rng.choice(ALLF)
+        a = SEQ_BASE[f] + rng.randint(-40, 40)
+        n = rng.choice([0, 1, 1, 2, 2, 3, 3, 3, 4, 5, 6, 8, 13, 30])
+        shape = rng.weighted([("run", 3), ("gaps", 3), ("repeat", 3), ("desc", 2), ("shuffled", 3), ("ends-apart", 4)])
+        if shape == "run":
+            seq = [a + i for i in range(n)]
+        elif shape == "gaps":
+            seq, x = [], a
+            for _ in range(n):
+                seq.append(x); x += rng.choice([1, 1, 2, 3, 7])
+        elif shape == "repeat":
+            seq = [a + rng.randint(0, 3) for _ in range(n)]
+        elif shape == "desc":
+            seq = [a - i * rng.choice([1, 2]) for i in range(n)]
+        elif shape == "shuffled":
+            seq = [a + i for i in range(n)]
+            for i in range(len(seq) - 1, 0, -1):
+                j = rng.randint(0, i); seq[i], seq[j] = seq[j], seq[i]
+        else:
+            # first and last are len-1 apart, the interior is anything in between (repeats, gaps, disorder)
+            seq = [a] + [a + rng.randint(0, max(n - 1, 0)) for _ in range(max(n - 2, 0))] + ([a + n - 1] if n >= 2 else [])
+        out.append((f, shape, seq))
+        ctx.count("sequence_" + shape)
     return out
 
 
@@ -168,6 +216,25 @@ def gen_lines(ctx: Ctx):
                 for d in (0, 1, 28, 29, 30, 31, 32):
                     fy.append(f"fromymd {f} {y} {m} {d}")
     streams["fromymd"] = fy
+    # periods_from_sdmx_strings: sequences in every arrangement, frequency given / auto-detected / wrong, a malformed or
+    # foreign-frequency element somewhere in the list
+    rs = ctx.rng.fork("sequences")
+    seqs = []
+    for f, shape, seq in gen_sequences(ctx, rs):
+        strs = [own_sdmx(f, x) for x in seq]
+        k = rs.weighted([("none", 5), ("given", 4), ("wrong", 1), ("bad-element", 1), ("foreign-element", 1)])
+        freq = "-"
+        if k == "given":
+            freq = f
+        elif k == "wrong":
+            freq = rs.choice([g for g in ALLF if g != f])
+        elif k == "bad-element" and strs:
+            strs[rs.randint(0, len(strs) - 1)] = rs.choice(["2020-Q5", "x", "2020-13", "(", "2020-02-30"])
+        elif k == "foreign-element" and strs:
+            g = rs.choice([g for g in ALLF if g != f])
+            strs[rs.randint(0, len(strs) - 1)] = own_sdmx(g, SEQ_BASE[g])
+        seqs.append(f"pfs {freq}|" + ",".join(strs))
+    streams["sequences"] = seqs
     return streams
 
 
@@ -259,6 +326,91 @@ def oracle(ctx: Ctx, scale=1):
             ctx.evaluations += 1
 
 
+def oracle_forms(ctx: Ctx, scale=1):
+    """the other entry points of the same conversions: the module-level function forms and aliases of `refrequent`, and the
+    sequence forms (`periods_from_sdmx_strings/_iso_strings/_python_dates`, `daters_from_*`, `Span.to_*_strings`) must be the
+    element-by-element conversions, whatever the arrangement of the sequence"""
+    rng = ctx.rng.fork("forms")
+    # --- function forms and aliases of refrequent, with the position forwarded
+    forms = [("Period.convert", lambda p, g, pos: p.convert(g, position=pos)),
+             ("Period.convert_to_new_freq", lambda p, g, pos: p.convert_to_new_freq(g, position=pos)),
+             ("Period.convert_to_new_frequency", lambda p, g, pos: p.convert_to_new_frequency(g, position=pos)),
+             ("irispie.refrequent", lambda p, g, pos: ir.refrequent(p, g, position=pos)),
+             ("irispie.convert_to_new_freq", lambda p, g, pos: ir.convert_to_new_freq(p, g, position=pos)),
+             ("dates.refrequent", lambda p, g, pos: D.refrequent(p, g, position=pos)),
+             ("Period.to_daily", lambda p, g, pos: p.to_daily(position=pos) if g is ir.Frequency.DAILY else p.refrequent(g, position=pos))]
+    for _ in range(ctx.n(400, 6000) * scale):
+        f = rng.choice(REG + ["D"])
+        s = SEQ_BASE[f] + rng.randint(-400, 400)
+        p = CLS[f](s)
+        g = rng.choice(REG + ["D"])
+        case = {"freq": f, "serial": s, "to": g}
+        ctx.evaluations += 1
+        for pos in POS:
+            try:
+                want = p.refrequent(FREQ[g], position=pos)
+                day = p.to_python_date(position=pos)
+                if not (want.to_python_date(position="start") <= day <= want.to_python_date(position="end")):
+                    continue   # reported by the containment oracle
+                for name, fn in forms:
+                    got = fn(p, FREQ[g], pos)
+                    if type(got) is not type(want) or got != want:
+                        ctx.fail("refrequent-function-form", {**case, "pos": pos, "form": name},
+                                 f"{name}({p!r}, {g}, position={pos!r}) = {got!r}, the method gives {want!r}")
+            except Exception as e:
+                ctx.fail("refrequent-function-form", {**case, "pos": pos}, repr(e))
+    # --- sequence forms
+    for f, shape, seq in gen_sequences(ctx, rng):
+        ps = [CLS[f](x) for x in seq]
+        if f != "I" and not all(in_calendar(f, x) for x in seq):
+            continue
+        case = {"freq": f, "shape": shape, "serials": seq}
+        ctx.evaluations += 1
+        try:
+            strs = [own_sdmx(f, x) for x in seq]
+            for kw in ({}, {"frequency": FREQ[f]}):
+                got = D.periods_from_sdmx_strings(strs, **kw)
+                if list(got) != ps or any(type(a) is not type(b) for a, b in zip(got, ps)):
+                    ctx.fail("sdmx-sequence", {**case, "frequency_given": bool(kw)}, f"{strs[:6]} -> {list(got)[:6]!r}")
+            got = D.daters_from_sdmx_strings(FREQ[f], strs)
+            if list(got) != ps:
+                ctx.fail("sdmx-sequence", {**case, "form": "daters_from_sdmx_strings"}, f"{strs[:6]} -> {list(got)[:6]!r}")
+            if list(D.periods_from_sdmx_strings(iter(strs))) != ps:
+                ctx.fail("sdmx-sequence", {**case, "form": "iterator"}, "an iterator of strings is not parsed like the list")
+            if f != "I":
+                for pos in POS:
+                    isos = [q.to_iso_string(position=pos) for q in ps]
+                    dates = [q.to_python_date(position=pos) for q in ps]
+                    if list(D.periods_from_iso_strings(isos, frequency=FREQ[f])) != ps or list(D.daters_from_iso_strings(FREQ[f], isos)) != ps:
+                        ctx.fail("iso-sequence", {**case, "pos": pos}, f"{isos[:6]}")
+                    if list(D.periods_from_python_dates(dates, frequency=FREQ[f])) != ps:
+                        ctx.fail("python-date-sequence", {**case, "pos": pos}, f"{dates[:6]}")
+            ctx.nontriv(("seq", f, shape, min(len(seq), 4)))
+        except Exception as e:
+            ctx.fail("sdmx-sequence", case, repr(e))
+    # --- a span's own string forms come back as the span's periods (forward, backward, stepped)
+    for _ in range(ctx.n(200, 3000) * scale):
+        f = rng.choice(ALLF)
+        a = SEQ_BASE[f] + rng.randint(-30, 30)
+        b = a + rng.randint(-12, 12)
+        st = rng.choice([1, 1, -1, 2, -2, 3, 5])
+        case = {"freq": f, "span": [a, b, st]}
+        ctx.evaluations += 1
+        try:
+            sp = ir.Span(CLS[f](a), CLS[f](b), st)
+            ps = list(sp)
+            if list(D.periods_from_sdmx_strings(sp.to_sdmx_strings())) != ps:
+                ctx.fail("span-sdmx-strings", case, f"{sp.to_sdmx_strings()[:6]}")
+            if f != "I":
+                for pos in POS:
+                    if list(D.periods_from_iso_strings(sp.to_iso_strings(position=pos), frequency=FREQ[f])) != ps:
+                        ctx.fail("span-iso-strings", {**case, "pos": pos}, f"{sp.to_iso_strings(position=pos)[:6]}")
+                    if list(D.periods_from_python_dates(sp.to_python_dates(position=pos), frequency=FREQ[f])) != ps:
+                        ctx.fail("span-python-dates", {**case, "pos": pos}, "")
+        except Exception as e:
+            ctx.fail("span-sdmx-strings", case, repr(e))
+
+
 def run(ctx: Ctx):
     ctx.rule = ("every regular period and (thinned in quick) every day of the enumerated years (quick: 1890-2110 + boundary years; thorough: "
                 "1-9999) through every round trip and every ordered frequency pair x position; produced, hand-written malformed and randomly "
@@ -276,11 +428,13 @@ def run(ctx: Ctx):
                 ctx.count("strings_in_" + (o if o.startswith("err") or o in ("no-class",) else "accepted"))
     ctx.exhaustive = False   # regular periods are enumerated completely in the thorough tier, days are thinned
     oracle(ctx)
+    oracle_forms(ctx)
 
 
 def search(ctx: Ctx, seeds):
     # bounded: the quick enumeration without thinning of days and with twice the random pairs (~1-2 min)
     ctx.tier = "quick"
+    oracle_forms(ctx, scale=2)
     oracle(ctx, scale=2)
 
 
@@ -290,4 +444,5 @@ def replay(ctx: Ctx, payload):
         impl = [impl_eval(case)]
         ctx.compare("replay", [case], impl, ctx.model("C11", [case]))
         ctx.evaluations += 1
+    oracle_forms(ctx)
     oracle(ctx)
